@@ -372,6 +372,45 @@ func allCodecs() []*codec {
 			},
 		})
 	}
+	// list-bearing payloads on their own (inside p2p.message they are one command
+	// of twenty and often compressed, so their count fields were seldom hit)
+	add(binCodec[payload.MPTData]("mptdata.bin", "p2p-payload", "MPTData.DecodeBinary", func(r *rng.R) (any, string) {
+		d := &payload.MPTData{}
+		for range 1 + countN(r, 20) {
+			d.Nodes = append(d.Nodes, r.Bytes(1+blen(r, 2000)))
+		}
+		return d, fmt.Sprintf("mptdata:%d", vclass(len(d.Nodes)))
+	}, nil, nil))
+	add(binCodec[payload.MPTInventory]("mptinventory.bin", "p2p-payload", "MPTInventory.DecodeBinary", func(r *rng.R) (any, string) {
+		d := &payload.MPTInventory{Hashes: hashes(r, 1+r.Intn(payload.MaxMPTHashesCount))}
+		return d, fmt.Sprintf("mptinv:%d", vclass(len(d.Hashes)))
+	}, nil, nil))
+	add(binCodec[payload.Inventory]("inventory.bin", "p2p-payload", "Inventory.DecodeBinary", func(r *rng.R) (any, string) {
+		typ := []payload.InventoryType{payload.TXType, payload.BlockType, payload.ExtensibleType, payload.P2PNotaryRequestType}[r.Intn(4)]
+		d := &payload.Inventory{Type: typ, Hashes: hashes(r, 1+r.Intn(60))}
+		return d, fmt.Sprintf("inv:%d:%d", typ, vclass(len(d.Hashes)))
+	}, nil, nil))
+	add(binCodec[payload.AddressList]("addrlist.bin", "p2p-payload", "AddressList.DecodeBinary", func(r *rng.R) (any, string) {
+		al := &payload.AddressList{}
+		for range 1 + r.Intn(12) {
+			a := &payload.AddressAndTime{Timestamp: bu32(r), Capabilities: genCaps(r)}
+			copy(a.IP[:], r.Bytes(16))
+			al.Addrs = append(al.Addrs, a)
+		}
+		return al, fmt.Sprintf("addrs:%d", vclass(len(al.Addrs)))
+	}, nil, nil))
+	add(binCodec[payload.Headers]("headers.bin", "p2p-payload", "Headers.DecodeBinary", func(r *rng.R) (any, string) {
+		hs := &payload.Headers{}
+		for range 1 + r.Intn(12) {
+			hs.Hdrs = append(hs.Hdrs, genHeader(r, false))
+		}
+		return hs, fmt.Sprintf("headers:%d", vclass(len(hs.Hdrs)))
+	}, nil, nil))
+	add(binCodec[payload.MerkleBlock]("merkleblock.bin", "p2p-payload", "MerkleBlock.DecodeBinary", func(r *rng.R) (any, string) {
+		n := 1 + r.Intn(20)
+		mb := &payload.MerkleBlock{Header: genHeader(r, false), TxCount: n, Hashes: hashes(r, n), Flags: r.Bytes((n + 7) / 8)}
+		return mb, fmt.Sprintf("merkleblock:%d", vclass(n))
+	}, nil, nil))
 	extIdent := func(v any) identity { return identity{hash: hx(v.(*payload.Extensible).Hash()), size: -1} }
 	add(binCodec[payload.Extensible]("extensible.bin", "extensible", "Extensible.DecodeBinary", func(r *rng.R) (any, string) {
 		e := genExtensible(r)
